@@ -67,7 +67,7 @@ func GenPlainString() *rapid.Generator[string] {
 // GenMsg draws a message of any class.
 func GenMsg() *rapid.Generator[string] {
 	return rapid.Custom(func(t *rapid.T) string {
-		if rapid.IntRange(0, 79).Draw(t, "hugeMsg") == 0 {
+		if Rare(t, "hugeMsg", 6) {
 			// far beyond every buffer and size class: 70-300 KB, one or several lines
 			n := rapid.IntRange(70<<10, 300<<10).Draw(t, "hugeLen")
 			unit := rapid.SampledFrom([]string{"huge message ", "huge\nmulti-line message ", "h\u00fcge m\u00e9ssage \u4e16\u754c "}).Draw(t, "hugeUnit")
@@ -161,7 +161,15 @@ func genFloat32() *rapid.Generator[float32] {
 func GenError(msg *rapid.Generator[string]) *rapid.Generator[error] {
 	return rapid.Custom(func(t *rapid.T) error {
 		m := msg.Draw(t, "errmsg")
-		switch rapid.IntRange(0, 3).Draw(t, "errkind") {
+		switch rapid.IntRange(0, 5).Draw(t, "errkind") {
+		case 4: // a long chain of wrapped errors (anything that walks Unwrap has a long way to go)
+			var e error = errors.New(m)
+			for i := rapid.SampledFrom([]int{2, 7, 8, 9, 10, 12, 40}).Draw(t, "chain"); i > 0; i-- {
+				e = fmt.Errorf("layer %d: %w", i, e)
+			}
+			return e
+		case 5: // errors.v3 error wrapping a standard one
+			return errorsv3.New("%s", m).WithErrors(errors.New("inner"))
 		case 0:
 			return errors.New(m)
 		case 1:
